@@ -34,7 +34,7 @@ ASSUMPTIONS = [
 TRUSTED_BASE = ["pvc (own VC generator: /verif/pvc)", "z3 5.1", "python ast module", "pvc.sympy2z3 for the per-program dependency checks"]
 
 
-def native_model(shape, seed, container="set", cse=True, transcendental=False, branchy=False, passthrough=False):
+def native_model(shape, seed, container="set", cse=True, transcendental=False, branchy=False, passthrough=False, rename=None):
     """Real compiled model vs exact sympy evaluation, by name."""
     from replay import shim
     from replay.native import repo_import
@@ -42,6 +42,9 @@ def native_model(shape, seed, container="set", cse=True, transcendental=False, b
     n, c, k = shape[0], shape[1], shape[2]
     sc = scenarios.Scenario(n, c, k, [1], seed=seed, transcendental=transcendental, branchy=branchy, passthrough=passthrough)
     transcendental = transcendental or branchy
+    if rename:
+        sc = scenarios.renamed(sc, rename, seed, unused_control=True)
+        k = sc.k
     problems = []
     try:
         py = shim.install()
@@ -89,6 +92,20 @@ def native_branchy(run, pid="C01"):
             run.findings.append(Finding(f"{pid}.py.native_branch_sensitive_program", "branchy", problems[0], {"language": "python", "inputs": {"shape": [2, 1, 1], "seed": run.seed, "cse": cse, "branchy": True}, "model_definition": sc.describe(), "oracle_verdict": problems[:4]}, True))
             break
     run.bounded.append({"what": "real compiled model of a program with asin(sin u), atan(tan u), sqrt(u^2), acos(cos u) terms vs direct evaluation, CSE on and off, inputs beyond the principal range", "bound": "1 program x 2 CSE settings x 2 points", "failures": fails, "counted_as_proved": False})
+    # symbols spelled like CSE temporaries (_t0, _t1, ... / x0, x1, ...), one of them a declared control that no expression mentions (an
+    # argument of the block that is absent from its expressions): a valid definition, must compile and evaluate by name
+    tf = 0
+    for style in ("_t", "x"):
+        for cse in (True, False):
+            run.native_runs += 1
+            problems, sc = native_model((4, 1, 2), run.seed, "set", cse, rename=style)
+            if problems:
+                tf += 1
+                run.findings.append(Finding(f"{pid}.py.native_temporary_like_names", "names", f"symbols named {style}0, {style}1, ...: {problems[0]}", {"language": "python", "inputs": {"shape": [4, 1, 2], "seed": run.seed, "cse": cse, "rename": style}, "model_definition": sc.describe(), "oracle_verdict": problems[:4]}, True))
+                break
+        if tf:
+            break
+    run.bounded.append({"what": "real compiled model whose symbols are spelled like CSE temporaries (_t<i>, x<i>), CSE on and off", "bound": "2 spellings x 2 CSE settings x 5 calls", "failures": tf, "counted_as_proved": False})
     pf = 0
     for cse in (True, False):
         run.native_runs += 1
@@ -173,7 +190,7 @@ def replay_file(payload):
     inp = payload["inputs"]
     problems = []
     for cse in ([inp["cse"]] if "cse" in inp else [True, False]):
-        p, sc = native_model(tuple(inp["shape"][:3]), inp.get("seed", 0), inp.get("container", "set"), cse, branchy=inp.get("branchy", False), passthrough=inp.get("passthrough", False))
+        p, sc = native_model(tuple(inp["shape"][:3]), inp.get("seed", 0), inp.get("container", "set"), cse, branchy=inp.get("branchy", False), passthrough=inp.get("passthrough", False), rename=inp.get("rename"))
         problems += p
     print("replay C01:", problems[:3] or "compiled model equals the symbolic update expressions")
     return not problems
